@@ -167,6 +167,6 @@ def c_reconnect(pend_rr: bool, pend_rs: bool, when: int, idle_us: int, settle_us
         stats.note(True, {'cause': CAUSE, 'rounds': ROUNDS, 'pending': [bool(pend_rr), bool(pend_rs)], 'when': when})
         loop.create_task(c.close())
         loop.run_ready()
-        if loop.exc:
+        if loop.errors():
             devs.append('loop-exception-handler-called')
     return pick_dev(devs, ALLOWED)
